@@ -2,6 +2,7 @@
     Models: Model/Blocks.v (token game of block programs with sub-process wrappers) and
     Model/SubProc.v (the activation protocol of subprocess.go). *)
 From BV Require Import Model.Blocks Model.SubProc Proofs.BlocksProofs Proofs.SubProcProofs Model.StartCount Proofs.StartCountProofs Gen.Facts.
+From BV Require Model.EventTreeFlow Proofs.EventTreeFlowProofs.
 Open Scope nat_scope.
 
 (* INLINE — for every program, every initial data and every sequence of answers (with their
@@ -89,6 +90,17 @@ Theorem C12_own_starts_refuted_when_the_list_survives :
   phase_one_from (carried false 1 [[Own 0]] []) 1 [] = true /\ all_fired 1 [] = false.
 Proof. exact refuted_accumulator_survives. Qed.
 Print Assumptions C12_own_starts_refuted_when_the_list_survives.
+
+(* TRANSPARENT TO EVENTS (Model/EventTreeFlow.v). Wrapping listeners in embedded sub-processes, to any depth, entered or
+   not, changes nothing about a delivery: it blocks or returns, and leaves the listeners' inboxes, exactly as a delivery
+   to the flat list of those listeners does -- for the sub-process of the sources, which forwards on the deliverer's
+   goroutine (src_subprocess_forwards_directly). The refutation for a sub-process with an inbox of its own is
+   C11_delivery_refuted_with_a_queueing_subprocess. *)
+Theorem C12_a_sub_process_is_transparent_to_delivery : forall e t,
+  EventTreeFlow.forwards_as (negb src_subprocess_forwards_directly) t ->
+  option_map EventTreeFlow.leaves (EventTreeFlow.tdeliver e t) = Inbox.deliver_all true e (EventTreeFlow.leaves t).
+Proof. exact EventTreeFlowProofs.delivery_through_subprocesses_is_flat. Qed.
+Print Assumptions C12_a_sub_process_is_transparent_to_delivery.
 
 Example C12_nonvacuous :
   behaviour (BLoop 3 (BSub (BSeq (BTask 1) (BSub (BPar (BTask 2) (BTask 3)))))) [false; false; false; false]
